@@ -276,6 +276,7 @@ def check_middleware(which, acc):
                         if pos == 2:
                             fields[1], fields[3] = fields[3], fields[1]  # failing field last, another name field first
                         e = Entry("article", "k", fields, start_line=1, raw="@article{k, ...}")
+                        spec = [(f.key, list(f.value) if isinstance(f.value, list) else f.value, f.start_line) for f in fields]
                         snapshot = [(f.key, canon(f.value), f.start_line) for f in e.fields]
                         case = {"middleware": "SplitNameParts", "bad": bad, "pos": pos, "inplace": inplace, "other": other_field}
                         acc.trace()
@@ -289,6 +290,20 @@ def check_middleware(which, acc):
                         acc.step(("mw", bad, pos, inplace), "transform", type(b).__name__)
                         if not isinstance(b, MiddlewareErrorBlock) or not isinstance(b.error, InvalidNameError):
                             acc.violation({"oracle": "invalid_name_becomes_error_block"}, {"case": case, "observed": type(b).__name__, "expected": "MiddlewareErrorBlock(InvalidNameError)"})
+                            continue
+                        # the same list of persons again: in a second entry of one library, and in a later library that goes
+                        # through the SAME instance - every occurrence is reported, none comes back shortened
+                        try:
+                            mk = lambda key: Entry("article", key, [Field(k_, list(v_) if isinstance(v_, list) else v_, l_) for k_, v_, l_ in spec], start_line=1, raw="@article{%s, ...}" % key)
+                            m_ = SplitNameParts(allow_inplace_modification=inplace)
+                            kinds = []
+                            for lib_ in (Library([mk("k1"), mk("k2")]), Library([mk("k3")])):
+                                kinds += [type(x).__name__ for x in m_.transform(lib_).blocks]
+                            if kinds != ["MiddlewareErrorBlock"] * 3:
+                                acc.violation({"oracle": "invalid_name_becomes_error_block", "occurrence": "the same list again (one instance)"}, {"case": case, "observed": kinds, "expected": ["MiddlewareErrorBlock"] * 3})
+                                continue
+                        except Exception as ex:
+                            acc.violation({"oracle": "error_block_not_exception", "exception": type(ex).__name__}, {"case": case, "observed": repr(ex), "expected": "MiddlewareErrorBlock"})
                             continue
                         try:
                             import copy as _copy
